@@ -109,9 +109,11 @@ def _c02_curved(h):
                 h.case((name, typ, bool(t), in_lune), True)
                 if got == t and got_open == t:
                     continue
-                if in_lune and got == c and got_open == c:
-                    # mechanism-pinned known finding: the library integrates the chord polyline (degree+1 nodes)
-                    h.finding("chord-sampling-lune", f"{name} ({typ}): point {tuple(map(float, p))} truth {t}, library {got} = membership in the chord polygon")
+                on_chord = c is None  # undecidable for the chord polygon with both rays: the point lies (within 1e-7) on a chord
+                if (in_lune and got == c and got_open == c) or on_chord:
+                    # mechanism-pinned known finding: the library integrates the chord polyline (degree+1 nodes); the
+                    # point is >= 1e-5 from the true curve, so only the chord polygon explains the answer
+                    h.finding("chord-sampling-lune", f"{name} ({typ}): point {tuple(map(float, p))} truth {t}, library {got}; chord polygon: {'on a chord' if on_chord else c}")
                 else:
                     h.ensure("interior-exterior-classified-correctly", False, detail=f"{name} {typ}: point {tuple(map(float, p))} truth {t}, `in` {got}, open {got_open}, chord-polygon {c}")
             # boundary rule: points exactly on the curve (vertices and mid parameters, rational data)
@@ -128,6 +130,57 @@ def _c02_curved(h):
                         continue
                     h.ensure("boundary-point-contained-iff-flag", a is True and b is True and c2 is False, detail=f"{name} {typ}: on-curve point {tuple(map(float, p))} (t={t}): in={a}, closed={b}, open={c2}")
     h.sample(dict(shape="blob2", point="(1.7, 1.7) lune", note="see findings"))
+
+
+def _chord_desc(d):
+    if d.kind == "simple":
+        return Desc("simple", chord_polygon(d.curve))
+    if d.kind in ("all", "any"):
+        return Desc(d.kind, parts=[_chord_desc(q) for q in d.parts])
+    return d
+
+
+@bounded("C02.rc-curved-composites", "C02", funcs=["shape.ConnectedShape._contains_point", "shape.DisjointShape._contains_point", "shape.SimpleShape._contains_point"], props=["C02"],
+         bound="directly constructed curved composites (blob with a curved hole, two disjoint blobs, blob with hole + island, complement of a blob with hole; float control points) x generic points + lune points; truth by exact winding numbers on the description", timeout=900)
+def _c02_composites(h):
+    rnd = random.Random(_seed() * 37 + 6)
+    big, hole, island, far = zoo.blob2(0, 0, 4), zoo.rev(zoo.blob3(0, 0, 2)), zoo.blob2(0, 0, Fraction(1, 2)), zoo.blob3(9, 1, 2)
+    S = lambda c: mk_simple(c, "float")
+    cases = [
+        ("blob-with-hole", lambda: ConnectedShape([S(big), S(hole)]), Desc("all", parts=[Desc("simple", big), Desc("simple", hole)]), [big, hole]),
+        ("two-blobs", lambda: DisjointShape([S(big), S(far)]), Desc("any", parts=[Desc("simple", big), Desc("simple", far)]), [big, far]),
+        ("hole+island", lambda: DisjointShape([ConnectedShape([S(big), S(hole)]), S(island)]), Desc("any", parts=[Desc("all", parts=[Desc("simple", big), Desc("simple", hole)]), Desc("simple", island)]), [big, hole, island]),
+        ("complement-of-holed", lambda: DisjointShape([S(zoo.rev(big)), S(zoo.rev(hole))]), Desc("any", parts=[Desc("simple", zoo.rev(big)), Desc("simple", zoo.rev(hole))]), [big, hole]),
+    ]
+    npts = 150 if h.tier == "quick" else 600
+    for name, mk, truth, curves in cases:
+        shape = mk()
+        chord = _chord_desc(truth)
+        box = bbox(curves)
+        pts = zoo.generic_points(rnd, box, npts)
+        for c in curves:
+            pts += lune_points(c, rnd, npts // 6)
+        for p in pts:
+            t = truth.contains(p)
+            if t is None or min(oracle.dist2_to_curve_lower_bound(c, p, 24) for c in curves) < 1e-10:
+                continue
+            lp = (float(p[0]), float(p[1]))
+            try:
+                got, got_open = (lp in shape), shape.contains_point(lp, False)
+            except Exception as e:  # noqa: BLE001
+                h.ensure("membership-does-not-raise", False, detail=f"{name} {lp}: {type(e).__name__}: {e}")
+                continue
+            cc = chord.contains(p)
+            h.case((name, bool(t), cc is not None and cc != t), True)
+            if got == t and got_open == t:
+                continue
+            if (cc is not None and cc != t and got == cc and got_open == cc) or cc is None:
+                h.finding("chord-sampling-lune", f"{name}: point {lp} truth {t}, library {got} = membership in the chord polygons")
+            else:
+                h.ensure("composite-membership-is-all/any-of-true-membership", False, detail=f"{name}: point {lp} truth {t}, `in` {got}, open {got_open}, chord {cc}")
+        dl = desc_of(shape)
+        bad = [p for p in pts[:60] if truth.contains(p) is not None and dl.contains(p) is not None and truth.contains(p) != dl.contains(p)]
+        h.ensure("directly-constructed-composite-denotes-intersection/union", not bad, detail=f"{name}: {bad[:2]}")
 
 
 @bounded("C01.rc-curved", "C01", funcs=["shape.FollowPath.*", "curve.Intersection.bezier_and_bezier", "jordancurve.JordanCurve.split"], props=["C01", "C05", "C06"],
